@@ -150,6 +150,11 @@ theorem loop_index {f m na : Nat} {lhs i : Expr} {r r' : List Tok}
     loop (f + 1) m na lhs (.p .lbracket :: r) = loop f m 0 (mkIndex lhs i) r' := by
   simp [loop, matchBin_lbracket, h1, hi]
 
+theorem loop_dot {f m na : Nat} {lhs : Expr} {s : String} {r : List Tok}
+    (h1 : ¬ dotLvl < m) :
+    loop (f + 1) m na lhs (.p .dot :: .id s :: r) = loop f m 0 (mkPath lhs s) r := by
+  simp [loop, matchBin_dot, h1]
+
 /-! argument lists -/
 
 theorem parseArgs_close (f : Nat) (close : P) (r : List Tok) :
